@@ -30,7 +30,8 @@ CLAUSE = {"exc": "a build raised a different exception type (or none) than the l
           "ret": "a build returned a different value than the library machine",
           "static": "a build exposes different names / a different struct layout than declared (gcc reference)"}
 CLAUSE.update(c13.CLAUSE)
-QUOTA = {"sel": 7, "sum": 2, "wr": 2, "rdi": 2, "bump": 1, "seterr": 1, "smake": 2, "sget": 2, "vsum": 3}
+QUOTA = {"sel": 7, "sum": 2, "wr": 2, "rdi": 2, "bump": 1, "seterr": 1, "smake": 2, "sget": 2, "vsum": 3,
+         "isum": 1, "asum": 2}
 
 
 def design_level(ctx):
@@ -173,9 +174,13 @@ def one_library(ctx, g, space, tag, scale):
     for name, s in sorted(funcs.items()):
         targets = vs if s[0] == "vsum" else [s]
         for s2 in targets:
-            for j in range(ntuples if s[0] != "vsum" else 3):
+            forced = []
+            if s2[0] == "asum":     # every convertible list class x every length around the 640-byte threshold
+                forced = [(c, n) for c in ("sl_full", "sl_short", "sl_dict", "sl_empty", "sl_tuple") for n in b.big_n(s2)]
+            for j in range(len(forced) + (ntuples if s[0] != "vsum" else 3)):
                 cid += 1
-                case, expect = b.case(cid, name, s2, pbad=0.3, force_ok=(j == 0), single_bad=True)
+                case, expect = b.case(cid, name, s2, pbad=0.3, force_ok=(j == 0), single_bad=True,
+                                      force=forced[j] if j < len(forced) else None)
                 cases.append(case)
                 meta[cid] = (s2, expect)
     obs, crashes = R.execute(ctx, plan, cases, BUILDS, nworkers=2)
